@@ -49,12 +49,10 @@ Occ(h, n) == { i \in 0..(Len(h) - Len(n)) : \A k \in 1..Len(n) : h[i + k] = n[k]
 SortedSeq(S) == SetToSortSeq(S, <)
 
 \* first index (1-based) of byte b in s at or after position p (1-based); 0 if none
-RECURSIVE FindByte(_, _, _)
-FindByte(s, b, p) == IF p > Len(s) THEN 0 ELSE IF s[p] = b THEN p ELSE FindByte(s, b, p + 1)
+FindByte(s, b, p) == LET S == { i \in p..Len(s) : s[i] = b } IN IF S = {} THEN 0 ELSE Min(S)
 
 \* strip trailing bytes equal to b  (python rstrip(bytes([b])))
-RECURSIVE RStrip(_, _)
-RStrip(s, b) == IF s # <<>> /\ s[Len(s)] = b THEN RStrip(SubSeq(s, 1, Len(s) - 1), b) ELSE s
+RStrip(s, b) == LET K == { i \in 1..Len(s) : s[i] # b } IN IF K = {} THEN <<>> ELSE SubSeq(s, 1, Max(K))
 \* bytes up to (not including) the first NUL
 CStr(s) == LET p == FindByte(s, 0, 1) IN IF p = 0 THEN s ELSE SubSeq(s, 1, p - 1)
 
